@@ -859,3 +859,18 @@ PROPS["C16"]["assumptions"] = PROPS["C16"].get("assumptions", []) + [
     "prefix and the payload sit in the database key, whatever the hash is"]
 PROPS["C16"]["trusted_base"] = KANI_TB + MIR_TB
 PROPS["C16"]["mir"] = True
+
+PROPS["C14"]["functions"].append(
+    "Engine M (read side): SubstateDatabaseOverlay::{list_raw_values_from_db_key, get_raw_substate_by_db_key} from their MIR "
+    "(the listing is read off the iterator structure the function builds: root listing + BTreeMap range of the staged "
+    "updates + the mapping closures, combined with the OverlayingIterator semantics the Kani harnesses establish)")
+PROPS["C14"]["bounds"] += ("; Engine M reads: an arbitrary staged state of one node x one partition (absent, Delta or Reset) with "
+                           "<= 3 staged entries, any requested partition, any cursor (none or any sort key), the verdict compared "
+                           "at an arbitrary sort key; the root is an arbitrary database (its answer at that key is symbolic)")
+PROPS["C14"]["outside"] = ("commit_overlay_into_root_store; commits touching several partitions or nodes at once; staged "
+                           "partitions with more entries than the slot capacity; list_partition_keys; the ORDER in which the "
+                           "listing yields its entries beyond what OverlayingIterator (Kani) and BTreeMap::range (std, trusted) "
+                           "provide: the Engine-M listing job decides membership and value per key, not the sequence")
+PROPS["C14"]["assumptions"] += ["the root database's listing from a cursor yields exactly its entries with key >= cursor, sorted "
+                                "(the SubstateDatabase contract); BTreeMap::range / iter yield the selected entries sorted (std)",
+                                "sort keys are modelled as one byte; node keys as one byte (the code only compares them)"]
